@@ -259,9 +259,9 @@ func verifC11Same(a, b []verifC11Item, what string) {
 // A stream looks the same over HTTP as over a pipe.
 //
 //verif:use ipc pipe handler httpx tokens
-//verif:bound producer, producer-with-header and exchange methods whose deterministic ghost state plays 1..2 (thorough: 1..3) turns, each ANY of: emit | log+emit | no emit | two emits | finish | error | panic | emit+finish (producers finish after their last turn, exchanges keep emitting); the init handler logs once; exchanges receive 1..2 (3) inputs, producers are drained; over HTTP the producer batch limit is 0 (unlimited), 1 or 2, the call-state cache is on or off (0 entries) and every request is served by 1 or 2 instances sharing the token key in rotation; compared: header batch, the sequence of log / data / error batches (payload identity, rows, level, message, exception type). Abstract IPC (batch contents are payload tags), ideal token algebra with the state carried by reference (a linear client never re-presents a cursor), ghost handler, no response compression (it wraps the body after the handlers and is C17's subject)
+//verif:bound producer, producer-with-header, exchange and dynamic (registered without an output schema; the stream result supplies it and the call token carries it across requests) methods whose deterministic ghost state plays 1..2 (thorough: 1..3) turns, each ANY of: emit | log+emit | no emit | two emits | finish | error | panic | emit+finish (producers finish after their last turn, exchanges keep emitting); the init handler logs once; exchanges receive 1..2 (3) inputs, producers are drained; over HTTP the producer batch limit is 0 (unlimited), 1 or 2, the call-state cache is on or off (0 entries) and every request is served by 1 or 2 instances sharing the token key in rotation; compared: header batch, the sequence of log / data / error batches (payload identity, rows, level, message, exception type). Abstract IPC (batch contents are payload tags), ideal token algebra with the state carried by reference (a linear client never re-presents a cursor), ghost handler, no response compression (it wraps the body after the handlers and is C17's subject)
 func verifH_C11_same_stream_over_both_transports() {
-	sc := &verifC11Scenario{method: []string{"p", "ph", "x"}[verifChoice("method", 3)]}
+	sc := &verifC11Scenario{method: []string{"p", "ph", "x", "d"}[verifChoice("method", 4)]}
 	maxTurns := 2
 	if verifTier() == 1 {
 		maxTurns = 3
